@@ -4,6 +4,7 @@
 -/
 import MTVerif.Driver.Codec
 import MTVerif.Model.TdSize
+import MTVerif.Model.Witness
 namespace MT
 open Sexp
 
@@ -45,6 +46,8 @@ def handle (st : DState) (req : Sexp) : Except String (DState × Sexp) :=
       .ok (st, sexpOfBool ((← tyOf t).tdOk (← natOf k)))
   | .list [.atom "hasTD", t] => do
       .ok (st, sexpOfBool (← tyOf t).hasTD)
+  | .list (.atom "witnessed" :: t :: vs) => do
+      .ok (st, sexpOfBool (witnessed false (← vs.mapM valOf) (← tyOf t)))
   | .list [.atom "wfTy", t] => do
       .ok (st, sexpOfBool (← tyOf t).wf)
   | .list [.atom "wf", v] => do
